@@ -264,7 +264,7 @@ def is_list(x):
 
 
 def is_iterable(x):
-    return is_list(x) or (isinstance(x, str) and not isinstance(x, (KGSym, KGChar)))
+    return is_list(x) or (isinstance(x, str) and not isinstance(x, KGSym) and not is_char(x))
 
 
 def is_empty(a):
